@@ -136,7 +136,7 @@ ADDED = {
  "C04": GRIDS.replace("Grid instances", "Ghost-row part: grid instances") + " All sequences of three solves on ONE variable (built-in solver) over 7 systems that differ by a few ppm, "
         "by a factor, in the sources only, in sparsity, or are expressed in units with coefficients ~1e-9; the caller's term list must be left alone; +SignedTuple; "
         "solveMatrixPDE with an external solver; three term kinds with structural zeros (axis-only velocity / diffusivity); programs with one and the same term "
-        "object at repeated positions; byte fingerprint of every term array before/after each solve; resolve part with a BC-sharing variable refreshed explicitly.",
+        "object at repeated positions; prior content of the solution variable generic / NaN / inf / -1e30; byte fingerprint of every term array before/after each solve; resolve part with a BC-sharing variable refreshed explicitly.",
  "C03": " Periodic axes declared on the low face / the high face / both (alternating on multi-axis subsets); the interior equations evaluated with the "
         "reported boundary values must be satisfied after solvePDE, also when a second variable was constructed with the same BC object after an edit. Also: the same problems with lengths x 2^-30 / 2^40 and values x 2^-40 / 2^30 (a and c rescaled with them), and integer/bool-typed initial arrays.",
  "C09": " Menu also contains re-assignments that differ by a few ppm / 1e-9 and augmented assignment of coefficients; roots include an integer-typed initial array "
@@ -146,12 +146,12 @@ ADDED = {
         "grids with up to 133 cells per axis; geometry re-read after in-place edits of location variables; every grid with grids of each other class built before and after it.",
  "C12": " Also: all three-step time loops on one solution variable in which the coefficient object alpha (scalar / ndarray / CellVariable) is kept, edited in place by 50% or "
         "by ppm, refreshed with apply_BCs, assigned, advanced by its own solvePDE or replaced between the steps (7x7 histories) x 4 dt patterns x {term list rebuilt, one list "
-        "reused, reused source vectors first}; default alpha; alpha fields varying along one axis only; dt and alpha given as int / numpy integer / float32 / bool; "
+        "reused, reused source vectors first}; old fields given with NaN / inf ghost cells; default alpha; alpha fields varying along one axis only; dt and alpha given as int / numpy integer / float32 / bool; "
         "the periodic axis rotates over the candidate axes and flag modes.",
  "C13": " Also: the gradient ratio given in every numeric container (int64/int32/int8/float32 arrays of rank 0-3, Python and NumPy scalars, strided / reversed / transposed / "
         "Fortran-ordered / read-only views); the argument must not be written to.",
  "C14": " Also: operands whose values coincide exactly with the scalar operands, zeros of both signs, the smallest subnormal, integer-typed ndarrays; results must be numpy's "
-        "including the sign of zeros; FaceVariable constructor forms (scalar, list, tuple, ndarray, integer); copy() of variables built with ghost cells / returned by "
+        "including the sign of zeros, NaN and infinities; FaceVariable constructor forms (scalar, list, tuple, ndarray, integer); copy() of variables built with ghost cells / returned by "
         "solveMatrixPDE / edited and not refreshed.",
  "C15": " Also: for every builder and 11 documented in-place edits of its inputs (velocity sign flip / scaling / zero / assignment through the label setters, D scaling, "
         "value edits + apply_BCs, BC edits incl. ppm): call, edit, call again == edit, call, bit for bit, and the inputs are left identical; every builder on a second mesh with "
